@@ -1,9 +1,11 @@
 #!/bin/sh
-# usage: seeds_detect.sh — for every kept seeded change: apply to a scratch copy of /repo, run the check of the property it breaks, report detected / MISSED.
+# usage: seeds_detect.sh — for every kept seeded change: apply to a scratch copy of /repo, run the check of the property it breaks, report
+# detected / MISSED, the rules that fired, and WEAK when the only reports are floor / anchor / undecided failures (the checker could not
+# analyse the changed code — that is an alarm, but not a diagnosis: such a seed counts as not yet understood by its rule).
 # (tools/reverify_seeds.sh additionally re-confirms each seed's demonstration; this is the quick regression of the checker.)
 cd /verif
 ./vcheck.sh -p C12 >/dev/null 2>&1
 tmp=$(mktemp -d /tmp/seeddet-XXXX)
-ls seeded | xargs -P ${JOBS:-6} -I{} sh -c 'p=$(python3 -c "import json;print(json.load(open(\"/verif/seeded/{}/meta.json\"))[\"breaks_property\"])"); n=$(tools/seedcheck.sh /verif/seeded/{} $p 400 2>&1 | grep -c "^VIOLATION property=$p"); echo "{} $p $n" > '$tmp'/{}.txt'
-cat $tmp/*.txt | awk '{ if ($3 == 0) { print $1, $2, "MISSED"; m++ } else d++ } END { print "detected", d+0, "missed", m+0 }'
+ls seeded | xargs -P ${JOBS:-6} -I{} sh -c 'p=$(python3 -c "import json;print(json.load(open(\"/verif/seeded/{}/meta.json\"))[\"breaks_property\"])"); tools/seedcheck.sh /verif/seeded/{} $p 4000 > '$tmp'/{}.out 2>&1; n=$(grep -c "^VIOLATION property=$p" '$tmp'/{}.out); v=$(grep -c "^ *\[violation\] $p-" '$tmp'/{}.out); r=$(grep -o "^ *\[violation\] $p-R[0-9a-z]*" '$tmp'/{}.out | sed "s/.*\] //" | sort -u | tr "\n" "," ); echo "{} $p $n $v ${r:--}" > '$tmp'/{}.txt'
+cat $tmp/*.txt | awk '{ if ($3 == 0) { print $1, $2, "MISSED"; m++ } else if ($4 == 0) { print $1, $2, "WEAK (no violation-kind report)"; w++; d++ } else d++; if (ENVIRON["VERBOSE"] != "") print $1, $2, "rules:", $5 } END { print "detected", d+0, "missed", m+0, "weak", w+0 }'
 rm -rf $tmp
